@@ -130,12 +130,40 @@ def r3_readers_below_published(cx):
                     ok = False
         cx.ob("R3", "R3/decode-before-slice@%s" % m, ok, h, "SeekableDecoder::%s calls decode_to(end) before touching decoded_slice(), with the bound derived from the same arguments" % m)
     k = F.one(impl_self="compression::SeekableDecoder", item="decode_to", closure=False)
-    kb = F.body(k)
-    ww = kb.calls(r"SyncVecRd::wait_while::<")
-    cx.ob("R3", "R3/decode_to-waits", len(ww) == 1, k, "decode_to blocks in wait_while(|d| *d < end)")
-    cl = [c for c in F.closures_of(k) if "blocks" in c]
-    okc = len(cl) == 1 and any(s["k"] == "assign" and s["rv"]["k"] == "bin" and s["rv"]["op"] == "Lt" for blk in cl[0]["blocks"] for s in blk["s"])
-    cx.ob("R3", "R3/wait-predicate", okc, k, "the wait predicate is `published < end`")
+    # decode_to blocks on the condition variable of the published length until `published >= end`; the helpers of
+    # compression.rs between decode_to and Condvar::wait_while are transparent (inlined view)
+    kb = F.deep_body(k, only=r"bases::io::compression::")
+    ww = kb.calls(r"Condvar::wait_while::<")
+    on_decoded = [t for _, t in ww if ("field", "decoded") in kb.origins(t["args"][1]) | kb.origins(t["args"][0])]
+    cx.ob("R3", "R3/decode_to-waits", len(on_decoded) >= 1 and len(on_decoded) == len(ww), k, "decode_to blocks in Condvar::wait_while on the published length (SyncVec.decoded)")
+    okc = bool(on_decoded)
+    for t in on_decoded:
+        cfs = set()
+        for l in [op_base_local(t["args"][2])]:
+            stack, seen = [l], set()
+            while stack:
+                x = stack.pop()
+                if x in seen or x is None:
+                    continue
+                seen.add(x)
+                for d in kb.defs().get(x, []):
+                    if d[0] == "stmt" and d[3]["k"] == "assign":
+                        rv = d[3]["rv"]
+                        if rv["k"] == "agg" and "closure_fn" in rv:
+                            cfs.add((rv["closure_fn"], d[1], d[2]))
+                        elif rv["k"] in ("use", "cast"):
+                            stack.append(op_base_local(rv["op"]))
+        ok1 = False
+        for cf, bb, j in cfs:
+            c = F.fns[cf]
+            lt = "blocks" in c and any(st["k"] == "assign" and st["rv"]["k"] == "bin" and st["rv"]["op"] == "Lt" for blk in c["blocks"] for st in blk["s"])
+            agg = kb.blocks[bb]["s"][j]["rv"]
+            cap = set()
+            for fo in agg["fields"]:
+                cap |= kb.origins(fo)
+            ok1 = ok1 or (lt and ("param", 2) in cap)
+        okc = okc and ok1
+    cx.ob("R3", "R3/wait-predicate", okc, k, "the wait predicate is `published < end` with `end` the bound decode_to received")
 
 
 LOCK_CALLS = (r"std::sync::Mutex::<.*>::lock$", r"std::sync::RwLock::<.*>::read$", r"std::sync::RwLock::<.*>::write$", r"Condvar::wait_while::<")
@@ -176,7 +204,7 @@ def _guard_region(b, acq_bb):
 
 def lock_graph(F):
     acq = {}  # fn id -> [(bb, name)]
-    for f in F.fns:
+    for f in F.live_fns:
         if "blocks" not in f or "creator::" in f["name"]:
             continue  # creator-side locks (StoreHandle, queue counter) are not part of the reader
         b = None
@@ -262,7 +290,7 @@ def r4_lock_order(cx):
         cx.ob("R4", "R4/edge/%s->%s" % e, True, "(lock-order graph)", "held %s while acquiring %s at %s" % (e[0], e[1], where[:4]), info=True)
     # closures run on the decompression pool never wait for another decode nor take reader-side locks
     sp = []
-    for f in F.fns:
+    for f in F.live_fns:
         if "blocks" not in f:
             continue
         for i, blk in enumerate(f["blocks"]):
